@@ -33,7 +33,8 @@ MANIFEST = {
             "  Second session: the oracle uses its own constant of final states (the repository's rps.FINAL list is mutable shared state which a wait call can corrupt for later calls of the same process)."
             '  Third session: a two-thread workload (400 / 12000 runs) puts wait_tasks on an application thread and the final notifications on a subscriber thread through the real _state_sub_cb, with a yield injected before every acquisition of the manager\'s task lock; the waiter\'s polls are counted and it has to return within 40 polls after the last notification was applied.'
             '  For wait_tasks a task which is past the earliest awaited state has reached it (the rule the method documents), also for the lateness bound.'
-            '  5% of the cases are trickles: 8-30 tasks / pilots reach the awaited state one after the other, about one per poll, across the moment the timeout expires (the call makes progress in every poll round and still has to honour its timeout).',
+            '  5% of the cases are trickles: 8-30 tasks / pilots reach the awaited state one after the other, about one per poll, across the moment the timeout expires (the call makes progress in every poll round and still has to honour its timeout).'
+            '  1.5% of the cases are long waits: the awaited state arrives after 61-90 s of virtual time (no or a 100 s timeout).',
     'note': 'bounded-progress restatement of "returns when it should" (3-poll '
             'slack, 50-poll hang threshold); state changes happen between '
             'polls, each state is held for at least one poll; timeout 0 is '
@@ -121,10 +122,37 @@ def gen_trickle(rng):
             'timeout': rng.choice([0.3, 0.5, 1]), 'trickle': True}
 
 
+def gen_long(rng):
+    '''a wait which is still pending after more than a minute (of virtual
+    time): what the call awaits arrives late'''
+
+    api   = rng.choice(['task', 'pilot', 'tmgr', 'pmgr'])
+    kind  = 'task' if api in ('task', 'tmgr') else 'pilot'
+    order = _TORDER if kind == 'task' else _PORDER
+    n     = 1 if api in ('task', 'pilot') else rng.randint(1, 3)
+    end   = rng.choice([rps.DONE, rps.DONE, rps.FAILED, rps.CANCELED])
+    ents  = list()
+    for i in range(n):
+        late = rng.randint(610, 900)
+        ents.append({'uid': '%s.%d' % (kind[0], i), 'start': order[0],
+                     'events': [[rng.randint(1, 20), order[1]],
+                                [rng.randint(30, 500), order[2]],
+                                [late, order[3]], [late + 2, end]]})
+    return {'api': api, 'entities': ents,
+            'requested': rng.choice([None, None, end]),
+            'select': 'self' if api in ('task', 'pilot') else 'all',
+            'list_order': list(range(n)),
+            'timeout': rng.choice([None, None, 100]), 'cap': 1100,
+            'long': True}
+
+
 def gen_case(rng):
 
-    if rng.random() < 0.05:
+    roll = rng.random()
+    if roll < 0.05:
         return gen_trickle(rng)
+    if roll < 0.065:
+        return gen_long(rng)
 
     api  = rng.choice(['task', 'pilot', 'tmgr', 'pmgr'])
     kind = 'task' if api in ('task', 'tmgr') else 'pilot'
@@ -264,7 +292,7 @@ def run_case(case, res):
         d = deadline()
         if d is not None and clk.polls > d + HANG:
             raise Hang()
-        if d is None and clk.polls > CAP:
+        if d is None and clk.polls > case.get('cap', CAP):
             raise Blocking()
 
     clk = VClock(on_tick)
